@@ -123,8 +123,13 @@ fn user_action(rng : &mut Rng, pr : &Profile, scn : &mut Scn, rules : &mut Vec<X
         7 | 8 =>
         {
             let k = rng.below(rules.len());
-            match rng.below(6)
+            match rng.below(7)
             {
+                6 =>
+                {   /* a rule gains or loses a target */
+                    if rules[k].tg.len() > 1 && rng.chance(1, 2) { let i = rng.below(rules[k].tg.len()); rules[k].tg.remove(i); rules[k].omit = 0; rules[k].mask.clear(); }
+                    else { let t = format!("n{}x{}", k, rng.below(2)); if rules[k].tg.contains(&t) || !scn.ord.contains(&t) { return false; } rules[k].tg.push(t); rules[k].tg.sort(); }
+                },
                 0 => { rules[k].id = format!("c{}v{}", k, rng.below(3)); },
                 1 => { if !pr.fail { return false; } rules[k].kind = if rules[k].kind == "fail" || rules[k].kind == "kill" { "fn".to_string() } else if rng.chance(1, 3) { "kill".to_string() } else { "fail".to_string() }; },
                 2 => { rules[k].layout = 1 - rules[k].layout; },
@@ -160,6 +165,8 @@ pub fn random_scenario(id : String, seed : u64, pr : &Profile) -> Vec<Value>
     let (mut rules, leaves) = gen_rules(&mut rng, pr);
     let targets : Vec<String> = rules.iter().flat_map(|r| r.tg.clone()).collect();
     let mut extra : Vec<&str> = leaves.iter().map(|s| s.as_str()).collect(); extra.push("zz");
+    let added : Vec<String> = (0..rules.len()).flat_map(|k| vec![format!("n{}x0", k), format!("n{}x1", k)]).collect();
+    for a in added.iter() { extra.push(a.as_str()); }
     let ord = ord_of(&vec![rules.clone()], &extra);
     let mut scn = Scn::new(&id, ord, pr.tick, pr.twin, json!({"seed" : seed}));
     let serial = rng.chance(1, 3);
